@@ -154,7 +154,7 @@ pub fn run(tier: Tier) -> ! {
     });
     chk.set("part_i_texts", json!(texts.len()));
     // (ii) 1-3 tokens x every per-token tag list
-    let tagpool: Vec<Option<&str>> = vec![None, Some("x"), Some("/"), Some("\\"), Some(" "), Some("あ"), Some("a/b"), Some("x ")];
+    let tagpool: Vec<Option<&str>> = vec![None, Some("x"), Some("/"), Some("\\"), Some(" "), Some("あ"), Some("a/b"), Some("x "), Some("あ/𠀋\\")];
     let surfaces: [&[char]; 3] = [&['a'], &['あ', 'b'], &['/', ' ']];
     let plan: Vec<(usize, usize)> = tier.pick(vec![(1, 3), (2, 2), (3, 2)], vec![(1, 4), (2, 3), (3, 2)]);
     for &(ntok, maxlen) in &plan {
@@ -230,7 +230,7 @@ pub fn run(tier: Tier) -> ! {
     chk.sample(json!({"kind": "idempotence", "x": "a\\ /\\/ あ"}));
     chk.assume("tags sit on token-final characters (the writer documents that others are ignored)");
     chk.finish(
-        "(i) all texts x all {N,W} vectors untagged; (ii) 1-3 tokens x all per-token tag lists over 8 hostile tags; (iii) cross product on reduced pools; (iv) all strings up to part_iv_max_len over {a,' ','/','\\\\',あ} for write-after-parse idempotence; non-trivial = delimiter in text or any tag list / accepted string; distinct by construction",
+        "(i) all texts x all {N,W} vectors untagged; (ii) 1-3 tokens x all per-token tag lists over 9 hostile tags (incl. an escapable character right after a multi-byte one); (iii) cross product on reduced pools; (iv) all strings up to part_iv_max_len over {a,' ','/','\\\\',あ} for write-after-parse idempotence; non-trivial = delimiter in text or any tag list / accepted string; distinct by construction",
         true,
         &replay,
     )
